@@ -106,6 +106,7 @@ func (x *Exec) call(e *ast.CallExpr, st *State) Value {
 	}
 	res := x.callWith(e, st, recvVal, argVals)
 	x.bumpFrontier(st)
+	x.recordCall(e, st, argVals, res)
 	async := false
 	if fn := x.calleeOf(e); fn != nil {
 		if c := x.eng.contractFor(fn); c != nil && c.Opts["async"] == "true" {
